@@ -246,8 +246,8 @@ def mapM' {α β : Type} (f : α → Except Err β) : List α → Except Err (Li
     .ok (y :: ys)
 
 /-- `CIFCategory._deserialize_looped`: key lines, then all values dealt cyclically to the
-columns (modelled as: cut into rows, transpose).  Zero columns, left-over values and empty
-columns are errors (StopIteration / DeserializationError / ValueError in the code). -/
+columns (modelled as: cut into rows, transpose; repeated column names share one list).  Zero
+columns, left-over values and empty columns are errors (StopIteration / DeserializationError / ValueError in the code). -/
 def deserializeLooped (lines : List Str) : Except Err (List (Str × List Str)) := do
   let keyLines := lines.takeWhile (fun l => l.head? == some '_')
   let dataLines := lines.drop keyLines.length
@@ -260,7 +260,13 @@ def deserializeLooped (lines : List Str) : Except Err (List (Str × List Str)) :
   | none => .error derr
   | some rows =>
     if rows.isEmpty then .error .valueError else
-    .ok ((keys.zip (transpose k rows)).foldl (fun d kv => dictSet kv.1 kv.2 d) [])
+    if decide keys.Nodup then
+      .ok ((keys.zip (transpose k rows)).foldl (fun d kv => dictSet kv.1 kv.2 d) [])
+    else
+      -- a column name that occurs twice: `category_dict[key] = []` is one list, and the values of every
+      -- column with that name are appended to it in reading order
+      .ok (keys.eraseDups.map (fun key => (key, rows.flatMap (fun row =>
+        (keys.zip row).filterMap (fun kv => if kv.1 == key then some kv.2 else none)))))
 
 /-- `CIFCategory.deserialize(text)` → (name, columns as strings). -/
 def categoryDeserialize (text : Str) : Except Err (Str × List (Str × List Str)) := do
